@@ -42,8 +42,8 @@ Helpers
     diff(a, b, rtol, atol, ignore=(...), renumber=None) -> list of (path, va, vb) differences, numbers compared as doubles
     inventory(entities, phases, keys=None, weights=None) -> Inventory(elements, charge, amounts, negatives)
     entity_inventory(entity, phases) -> (elements dict, charge, amounts list)
-    implied_dl_water(entity)   -> kg of diffuse-layer water a never-used SURFACE definition owns (manual eq. 76) although its
-                                  dump shows -mass_water 0
+    implied_dl_water(entity)   -> kg of diffuse-layer water (area x thickness, manual eq. 76) of a never-used SURFACE
+                                  definition whose dump shows -mass_water 0 (diagnostic; not part of the inventories)
     reaction_stoich(entity, phases) -> elements added per mole of REACTION progress (phase names resolved through
                                   `phases`: dict phase -> formula text, e.g. inv_util.phase_formulas("phreeqc.dat"))
 
@@ -405,15 +405,13 @@ def reaction_stoich(ent, phases):
 
 
 def implied_dl_water(ent):
-    """kg of diffuse-layer water that a SURFACE *definition* carries without listing it in the dump.
-
-    Manual (1999, eq. 75-76): a surface with an explicit diffuse layer (-diffuse_layer / -donnan) of constant thickness t
-    owns the water W_s = A_surf * t (1 L = 1 kg), A_surf = specific area x grams; it is "the mass of water in the diffuse
-    layer of surface s", in addition to the water of the solution.  The dump of a definition that has never been used
-    (neither -equilibrate nor a reaction) still shows `-mass_water 0` for its charge components; the engine fills W_s in
-    at the first calculation.  Returns the sum of A*t*1000 over the charge components whose -mass_water is 0; 0.0 for
-    surfaces without explicit diffuse layer, for initialised surfaces, and for -donnan debye_lengths (variable thickness:
-    that water is taken out of the solution, nothing is implied)."""
+    """kg of diffuse-layer water W_s = A_surf * t * 1000 (manual 1999, eq. 76; A_surf = specific area x grams, 1 L = 1 kg)
+    of the charge components of a SURFACE with an explicit constant-thickness diffuse layer (-diffuse_layer / -donnan)
+    whose dump still shows `-mass_water 0`, i.e. a definition that has never been used (neither -equilibrate nor a
+    reaction).  Diagnostic helper only - NOT part of any inventory: on the pinned tree the ion-association databases
+    create this water on top of the solution's water at the first reaction (C02 known finding
+    `diffuse-layer-water-created-at-first-contact`), pitzer.dat and `-donnan debye_lengths` take it out of the solution.
+    Returns 0.0 for surfaces without explicit diffuse layer, for initialised surfaces and for -donnan debye_lengths."""
     if ent.get("_kind") != "SURFACE":
         return 0.0
     if float(ent.get("dl_type") or 0.0) == 0.0 or float(ent.get("debye_lengths") or 0.0) > 0.0:
